@@ -166,7 +166,39 @@ class Ctx:
         p = subprocess.run(cmd, capture_output=True, text=True, cwd=self.work)
         return p.returncode == 0, p.stdout + p.stderr
 
-    def coq_failing(self, name, header, case_terms, checker, shard=400, par=8, timeout=900):
+    def dyn_build(self, label, gen_files, dyn_dirs, order, timeout=900):
+        """Per-run build of files that depend on regenerated code.
+        gen_files: {basename: source} written into the work dir; dyn_dirs: committed dirs under coq/dyn
+        whose .v files are copied next to them; order: basenames compiled in sequence under -Q . <label>.
+        Returns {basename: (ok, output)} (stops at the first failure)."""
+        import glob
+        for name, src in gen_files.items():
+            with open(os.path.join(self.work, name + ".v"), "w") as f:
+                f.write(src)
+        for d in dyn_dirs:
+            for fn in glob.glob(os.path.join(COQ, "dyn", d, "*.v")):
+                shutil.copy(fn, self.work)
+        res = {}
+        for name in order:
+            cmd = ["timeout", str(timeout), "coqc", "-Q", os.path.join(COQ, "theories"), "GW",
+                   "-Q", self.work, label, os.path.join(self.work, name + ".v")]
+            p = subprocess.run(cmd, capture_output=True, text=True, cwd=self.work)
+            res[name] = (p.returncode == 0, p.stdout + p.stderr)
+            if p.returncode != 0:
+                break
+        return res
+
+    def dyn_theorems(self, label, fname, res, names):
+        """one obligation per theorem of a dyn Properties file + its Print Assumptions output"""
+        ok, out = res.get(fname, (False, "not compiled: an earlier file failed: " +
+                                  "; ".join(f"{k}: {v[1][-400:]}" for k, v in res.items() if not v[0])))
+        for n in names:
+            self.oblige(f"{label}.{fname}:{n}", ok, "" if ok else out[-1200:])
+        if ok:
+            self._parse_assumptions(names, out)
+        return ok
+
+    def coq_failing(self, name, header, case_terms, checker, shard=400, par=8, timeout=900, label=None):
         """Evaluate `checker case` (bool) on every case term inside Coq (vm_compute) and
         return the list of indices whose result is false, or None on a Coq error.
         header: Require lines.  case_terms: list of Gallina term strings."""
@@ -183,7 +215,7 @@ class Ctx:
             with open(path, "w") as f:
                 f.write(body)
             cmd = ["timeout", str(timeout), "coqc", "-Q", os.path.join(COQ, "theories"), "GW",
-                   "-Q", self.work, "W" + self.pid, path]
+                   "-Q", self.work, label or ("W" + self.pid), path]
             procs.append((si, subprocess.Popen(cmd, stdout=subprocess.PIPE, stderr=subprocess.STDOUT,
                                                text=True, cwd=self.work)))
             if len(procs) >= par:
